@@ -219,10 +219,18 @@ def dictOne (gk gv : Val → Except Exc Val) (kv : Val × Val) : Except Exc (Val
 theorem intoC_dict (kind k vc) (v : Val) :
     intoC E dyn (.dict kind k vc) v =
       if !v.isMap then .error { cls := .attributeError, msg := "AttributeError: items" }
-      else match exMapM (dictOne (intoC E dyn k) (intoC E dyn vc)) v.mapItems with
+      else match exMapM (dictOne (anyOr E dyn k (intoC E dyn k)) (anyOr E dyn vc (intoC E dyn vc))) v.mapItems with
         | .error e => .error e
         | .ok kvs => (buildDict kvs).map .dict := by
   simp only [intoC]; rfl
+
+/-- on a value that is not an instance of a scalar subclass the serialiser `DictConverter.into_data` picks
+for an element is the element converter's own (for `Any`: both are the untyped serialiser) -/
+theorem anyOr_eq (c : Conv) (x : Val) (h : c = .any → x.isData = true) :
+    anyOr E dyn c (intoC E dyn c) x = intoC E dyn c x := by
+  cases c <;> try rfl
+  have hx := h rfl
+  cases x <;> first | rfl | (simp [Val.isData] at hx)
 
 theorem buildDict_ok_inv {kvs D : List (Val × Val)} (h : buildDict kvs = .ok D) :
     (∀ p ∈ kvs, p.1.hashable = true) ∧ D = Val.dictOfPairs kvs := by
@@ -313,9 +321,22 @@ theorem rt_dict {kind k vc} (hk : IdGood E dyn N k) (hv : RTGood E dyn N vc) :
         obtain ⟨p, hp, hpe⟩ := List.mem_map.1 this
         rw [← hpe]; exact hhashD p hp
       have hb' : buildDict kvs' = .ok kvs' := buildDict_id hh' (by rw [g2]; exact hdist)
+      have hany : exMapM (dictOne (anyOr E dyn k (intoC E dyn k)) (anyOr E dyn vc (intoC E dyn vc))) (Val.dictOfPairs kvs) =
+          exMapM (dictOne (intoC E dyn k) (intoC E dyn vc)) (Val.dictOfPairs kvs) := by
+        apply exMapM_congr
+        intro p hp
+        obtain ⟨⟨q1, hq1, e1⟩, ⟨q2, hq2, e2⟩⟩ := Val.dictOfPairs_mem hp
+        obtain ⟨u1, hu1, t1, _⟩ := hsrc q1 hq1
+        obtain ⟨u2, hu2, _, t2⟩ := hsrc q2 hq2
+        rw [e1] at t1; rw [e2] at t2
+        have a1 : anyOr E dyn k (intoC E dyn k) p.1 = intoC E dyn k p.1 := anyOr_eq k p.1 (fun hk' => by
+          subst hk'; simp only [tryC, Outcome.ok.injEq] at t1; rw [← t1]; exact (Val.isData_mapItems hvd u1 hu1).1)
+        have a2 : anyOr E dyn vc (intoC E dyn vc) p.2 = intoC E dyn vc p.2 := anyOr_eq vc p.2 (fun hv' => by
+          subst hv'; simp only [tryC, Outcome.ok.injEq] at t2; rw [← t2]; exact (Val.isData_mapItems hvd u2 hu2).2)
+        simp only [dictOne, a1, a2]
       refine ⟨.dict kvs', ?_, Val.isData_dict g3 hh' (by rw [g2]; exact hdist), ?_⟩
       · rw [intoC_dict]
-        simp only [hmap, hitems, Bool.not_true, Bool.false_eq_true, if_false, g1, hb', Except.map]
+        simp only [hmap, hitems, Bool.not_true, Bool.false_eq_true, if_false, hany, g1, hb', Except.map]
       · rw [tryC_dict]
         simp only [Val.isMap, Val.mapItems, Bool.not_true, Bool.false_eq_true, if_false, g4,
           buildDict_id hhashD hdist, guardTry_ok, Outcome.bind_ok]
